@@ -19,6 +19,7 @@ def run(tier, seed, replay=None):
     if not chk.builds(model=True, harness=True):
         return chk.finish()
     chk.proofs()
+    chk.proofs("NoMix")     # the no-mix estimate is sound for the exact rule on every route, unit and placement; no script of plans / un-plans ends in an error
     n = 4400 if tier == "quick" else 40000
     size = "small" if tier == "quick" else "medium"
     cases = E.make_cases(seed * 1009 + 9, n // 11, size=size, nops=35, mode="checked_only")
